@@ -269,7 +269,11 @@ impl<Id: InternId> InternTable<Id, Id::Intern> {
             Err(insert_lock) => insert_lock,
         };
         let id = Id::wrap(self.arena.add(t.into()));
+        #[cfg(feature = "isographlabs_isograph_verif")]
+        crate::verif_hook::yield_point("intern.insert", id.index() as u64);
         insert_lock.insert(AsInterned(id));
+        #[cfg(feature = "isographlabs_isograph_verif")]
+        crate::verif_hook::yield_point("intern.unlock", id.index() as u64);
         id
     }
 
